@@ -54,7 +54,7 @@ mod error;
 pub use error::{ProofError, ProofErrorKind};
 
 mod nsec3;
-use nsec3::verify_nsec3;
+use nsec3::{nsec3_matches_name, verify_nsec3};
 
 /// Performs DNSSEC validation of all DNS responses from the wrapped DnsHandle
 ///
@@ -734,6 +734,7 @@ impl<H: DnsHandle> DnssecDnsHandle<H> {
                     .answers
                     .iter()
                     .any(|r| r.record_type() == RecordType::DS)
+                    && ds_denial_is_at_delegation(&zone, &response)
                 {
                     debug!(
                         %zone,
@@ -1105,6 +1106,35 @@ fn find_soa_name(verified_message: &DnsResponse) -> Option<&Name> {
     }
 
     None
+}
+
+/// Checks that a validated "no DS" response can prove an insecure delegation.
+///
+/// The zone cut that leads to the DS query is found with unauthenticated NS queries, so the name
+/// may not be a delegation point at all. An authenticated NSEC or NSEC3 record matching a name
+/// that is no delegation point proves that there is no DS RRset there, but that says nothing about
+/// the security status of the names below. Per [RFC 6840 section
+/// 4.4](https://datatracker.ietf.org/doc/html/rfc6840#section-4.4) the NS bit must be set in the
+/// matching record (there is a delegation) and the SOA bit must be clear (the record comes from
+/// the parent side of it). If no authenticated record matches the name, the response was either
+/// accepted because of an NSEC3 opt-out span or because the parent zone itself is insecure.
+fn ds_denial_is_at_delegation(zone: &Name, response: &DnsResponse) -> bool {
+    response
+        .authorities
+        .iter()
+        .filter(|record| record.proof.is_secure())
+        .filter_map(|record| match &record.data {
+            RData::DNSSEC(DNSSECRData::NSEC(nsec)) if record.name == *zone => {
+                Some(nsec.type_set())
+            }
+            RData::DNSSEC(DNSSECRData::NSEC3(nsec3))
+                if nsec3_matches_name(&record.name, nsec3, zone) =>
+            {
+                Some(nsec3.type_set())
+            }
+            _ => None,
+        })
+        .all(|types| types.contains(RecordType::NS) && !types.contains(RecordType::SOA))
 }
 
 /// This verifies a DNSKEY record against DS records from a secure delegation.
